@@ -98,6 +98,31 @@ func c04Expr(e ast.Expr, recv string, consts map[string]int64, calls map[string]
 	return "", fmt.Errorf("unsupported expression %T", e)
 }
 
+// c04ExprFn translates e where `fn(x)` is the application of a function-typed parameter.
+func c04ExprFn(e ast.Expr, fn string) (string, error) {
+	var rewrite func(ast.Expr) ast.Expr
+	rewrite = func(x ast.Expr) ast.Expr {
+		switch y := x.(type) {
+		case *ast.BinaryExpr:
+			return &ast.BinaryExpr{X: rewrite(y.X), Op: y.Op, Y: rewrite(y.Y)}
+		case *ast.ParenExpr:
+			return &ast.ParenExpr{X: rewrite(y.X)}
+		case *ast.CallExpr:
+			if id, ok := y.Fun.(*ast.Ident); ok && id.Name == fn && len(y.Args) == 1 {
+				// encode as method call so that c04Expr's `calls` map applies
+				return &ast.CallExpr{Fun: &ast.SelectorExpr{X: ast.NewIdent("_"), Sel: ast.NewIdent(fn)}, Args: []ast.Expr{rewrite(y.Args[0])}}
+			}
+			args := make([]ast.Expr, len(y.Args))
+			for i, a := range y.Args {
+				args[i] = rewrite(a)
+			}
+			return &ast.CallExpr{Fun: y.Fun, Args: args}
+		}
+		return x
+	}
+	return c04Expr(rewrite(e), "", nil, map[string]string{fn: fn})
+}
+
 // singleReturn returns the expression of a function whose body is one return statement.
 func singleReturn(fd *ast.FuncDecl) (ast.Expr, string, error) {
 	if fd == nil || fd.Body == nil || len(fd.Body.List) != 1 {
@@ -138,8 +163,8 @@ func goBody(fd *ast.FuncDecl) *ast.BlockStmt {
 func keepCalls(seq []string, keep ...string) []string {
 	var out []string
 	for _, c := range seq {
-		if strings.HasPrefix(c, "defer:") {
-			continue
+		if strings.HasPrefix(c, "defer:") || strings.HasPrefix(c, "λ:") {
+			continue // deferred calls and calls inside nested function literals are not steps of this body
 		}
 		name := c
 		if i := strings.LastIndexByte(name, '.'); i >= 0 {
@@ -178,7 +203,7 @@ func commonTimeutilPath(repo string) (string, error) {
 func init() {
 	Register(Fact{Module: "C04", Gen: func(repo string) (string, error) {
 		var sb strings.Builder
-		sb.WriteString("/-- Go conversion `uint16(x)` -/\ndef u16 (x : Int) : Int := x % 65536\n\n")
+		sb.WriteString("set_option linter.unusedVariables false\n\n/-- Go conversion `uint16(x)` -/\ndef u16 (x : Int) : Int := x % 65536\n\n")
 		// time constants of github.com/lindb/common/pkg/timeutil
 		tp, err := commonTimeutilPath(repo)
 		if err != nil {
@@ -342,30 +367,90 @@ func init() {
 		}
 		sb.WriteString("\ndef prepareRollupCalls : List String := " + LeanStrList(keepCalls(CallSeq(FindFunc(mg, "merger", "prepare")),
 			"GetTimestamp", "CalcSlot", "IntervalRatio", "BaseSlot")) + "\n")
-		// placement formula of DownSamplingMultiSeriesInto
+		// placement: which down-sampling entry point seriesMerger.merge uses for a rollup, and the
+		// position formula of that entry point. Two shapes are understood:
+		//   ratio     : DownSamplingMultiSeriesInto(target, ratio, baseSlot, ...) with
+		//               targetPos := bs + int(movingSourceSlot/ratio) - int(target.Start)
+		//   timestamp : DownSamplingMultiSeriesIntoBy(target, mergeCtx.targetSlotOf, ...) with
+		//               targetPos := targetSlotOf(movingSourceSlot) - int(target.Start) and merger.prepare
+		//               building targetSlotOf = int(rollup.CalcSlot(rollup.GetTimestamp(sourceSlot)))
+		// Both emit `targetPos` with one signature, so the same Props file type-checks against either.
+		_, sm, err := ParseFile(repo, "tsdb/tblstore/metricsdata/series_merger.go")
+		if err != nil {
+			return "", err
+		}
 		_, ds, err := ParseFile(repo, "aggregation/down_sampling_agg.go")
 		if err != nil {
 			return "", err
 		}
-		dfn := FindFunc(ds, "", "DownSamplingMultiSeriesInto")
+		mergeCalls := keepCalls(CallSeq(FindFunc(sm, "seriesMerger", "merge")), "DownSamplingMultiSeriesInto", "DownSamplingMultiSeriesIntoBy")
+		byTs := false
+		for _, c := range mergeCalls {
+			if c == "DownSamplingMultiSeriesIntoBy" {
+				byTs = true
+			}
+		}
+		if len(mergeCalls) == 0 {
+			return "", fmt.Errorf("seriesMerger.merge: no down-sampling call found")
+		}
+		entry := "DownSamplingMultiSeriesInto"
+		if byTs {
+			entry = "DownSamplingMultiSeriesIntoBy"
+		}
+		dfn := FindFunc(ds, "", entry)
 		tpE := FindAssign(dfn, "targetPos")
 		if tpE == nil {
-			return "", fmt.Errorf("DownSamplingMultiSeriesInto: targetPos not found")
+			return "", fmt.Errorf("%s: targetPos not found", entry)
 		}
-		tps, err := c04Expr(tpE, "", nil, nil)
+		tps, err := c04Expr(tpE, "", nil, map[string]string{})
 		if err != nil {
-			return "", fmt.Errorf("targetPos: %w", err)
+			// targetSlotOf(x) is a call of a function value
+			tps, err = c04ExprFn(tpE, "targetSlotOf")
+			if err != nil {
+				return "", fmt.Errorf("targetPos: %w", err)
+			}
 		}
-		sb.WriteString("\ndef targetPos (bs movingSourceSlot ratio target_Start : Int) : Int :=\n  " + tps + "\n")
-		bsE := FindAssign(dfn, "bs")
-		if bsE == nil {
-			return "", fmt.Errorf("DownSamplingMultiSeriesInto: bs not found")
+		fmt.Fprintf(&sb, "\n/-- the rollup merge places by the slot of the timestamp (fixes/C04 patch applied) -/\ndef placementByTimestamp : Bool := %v\n", byTs)
+		sb.WriteString("def mergeDownSamplingCalls : List String := " + LeanStrList(mergeCalls) + "\n")
+		sb.WriteString("\ndef targetPos (bs movingSourceSlot ratio target_Start : Int) (targetSlotOf : Int → Int) : Int :=\n  " + tps + "\n")
+		if byTs {
+			// the closure assigned to ctx.targetSlotOf in the rollup branch of merger.prepare
+			var lit *ast.FuncLit
+			ast.Inspect(FindFunc(mg, "merger", "prepare"), func(n ast.Node) bool {
+				if as, ok := n.(*ast.AssignStmt); ok && len(as.Lhs) == 1 && len(as.Rhs) == 1 {
+					if se, ok := as.Lhs[0].(*ast.SelectorExpr); ok && se.Sel.Name == "targetSlotOf" && lit == nil {
+						if fl, ok := as.Rhs[0].(*ast.FuncLit); ok {
+							lit = fl
+						}
+					}
+				}
+				return true
+			})
+			if lit == nil {
+				return "", fmt.Errorf("merger.prepare: assignment of targetSlotOf not found")
+			}
+			e, _, err := singleReturn(&ast.FuncDecl{Body: lit.Body})
+			if err != nil {
+				return "", fmt.Errorf("merger.prepare targetSlotOf: %w", err)
+			}
+			so, err := c04Expr(e, "", nil, map[string]string{"CalcSlot": "calcSlot", "GetTimestamp": "getTimestamp"})
+			if err != nil {
+				return "", fmt.Errorf("merger.prepare targetSlotOf: %w", err)
+			}
+			sb.WriteString("def prepareSlotOf (calcSlot getTimestamp : Int → Int) (sourceSlot : Int) : Int :=\n  " + so + "\n")
+			sb.WriteString("def bsOf (baseSlot : Int) : Int :=\n  baseSlot\n")
+		} else {
+			sb.WriteString("def prepareSlotOf (calcSlot getTimestamp : Int → Int) (sourceSlot : Int) : Int :=\n  0\n")
+			bsE := FindAssign(dfn, "bs")
+			if bsE == nil {
+				return "", fmt.Errorf("DownSamplingMultiSeriesInto: bs not found")
+			}
+			bss, err := c04Expr(bsE, "", nil, nil)
+			if err != nil {
+				return "", err
+			}
+			sb.WriteString("def bsOf (baseSlot : Int) : Int :=\n  " + bss + "\n")
 		}
-		bss, err := c04Expr(bsE, "", nil, nil)
-		if err != nil {
-			return "", err
-		}
-		sb.WriteString("def bsOf (baseSlot : Int) : Int :=\n  " + bss + "\n")
 		return sb.String(), nil
 	}})
 }
